@@ -76,7 +76,10 @@ def load_replay(path):
 
     def fix_attr(a):
         a = dict(a)
-        for key in ("ty", "default", "factory", "prepare", "prepare_item", "override"):
+        for key in ("ty", "prepare", "prepare_item"):
+            if a.get(key) is not None:
+                a[key] = tup(a[key])
+        for key in ("default", "factory", "override"):
             if a.get(key) is not None:
                 a[key] = fix_default(tup(a[key]))
         return a
